@@ -91,6 +91,12 @@ class Graph(object):
     self._in_node_map.setdefault(edge.in_node, set()).add(edge)
     self._out_node_map.setdefault(edge.out_node, set()).add(edge)
 
+  def get_dependent_edges(self, in_node):
+    """
+    Returns the edges to the nodes that directly depend on in_node.
+    """
+    return list(self._in_node_map.get(in_node, ()))
+
   def clear_dependencies(self, out_node):
     """
     Removes all edges which affect the given out_node, i.e. all of its dependencies.
